@@ -801,12 +801,18 @@ Section StateKVProofs.
     Definition un_ok (un : list kv) : Prop :=
       forall k v, In (k, v) un -> In (k, v) (serialize st) /\ fixed_index k = None /\ info_sid k = None.
 
+    Definition key_unres (k : bytes) : Prop := fixed_index k = None /\ info_sid k = None.
+
     Definition pre_ok (s' : N) (pres : list (bytes * bytes)) : Prop :=
       forall h v, In (h, v) pres -> h = H v /\
-        exists k', In (k', v) (serialize st) /\ sid_type3 k' = s' /\ fixed_index k' = None /\ info_sid k' = None.
+        exists k', In (k', v) (serialize st) /\ sid_type3 k' = s' /\ fixed_index k' = None /\ info_sid k' = None /\
+                   k' = key_svc_hash s' (pre_input h).
+
+    Definition lks_ok (s' : N) (lks : list ((bytes * N) * tslots)) : Prop :=
+      forall e, In e lks -> key_unres (key_svc_hash s' (lk_input (fst e))).
 
     Definition acc_ok (s' : N) (a' : pacc) : Prop :=
-      In (key_svc_idx 255 s') (map fst (serialize st)) /\ s' < 2 ^ 32 /\ pre_ok s' (p_pre a').
+      In (key_svc_idx 255 s') (map fst (serialize st)) /\ s' < 2 ^ 32 /\ pre_ok s' (p_pre a') /\ lks_ok s' (p_lk a').
 
     Definition delta_ok (d : list (N * pacc)) : Prop := forall s' a', In (s', a') d -> acc_ok s' a'.
 
@@ -834,8 +840,8 @@ Section StateKVProofs.
           assert (Hk : In (key_svc_idx 255 s0) (map fst (serialize st))).
           { apply in_map_iff. exists (key_svc_idx 255 s0, v). auto. }
           apply upd_acc_ok; [assumption| |].
-          * intros a Ha. destruct (Hd s0 a Ha) as (_ & _ & Hp). split; [assumption|split; [assumption|exact Hp]].
-          * split; [assumption|split; [assumption|]]. intros h w [].
+          * intros a Ha. destruct (Hd s0 a Ha) as (_ & _ & Hp & Hl). split; [assumption|split; [assumption|split; [exact Hp|exact Hl]]].
+          * split; [assumption|split; [assumption|split]]; [intros h w []|intros e []].
         + destruct (bytes_eqb k (key_svc_hash (sid_type3 k) (pre_input (H v)))) eqn:Ep;
             inversion Hs; subst; clear Hs.
           * split; [assumption|]. cbn [ps_delta].
@@ -844,13 +850,15 @@ Section StateKVProofs.
             assert (Hk : In (key_svc_idx 255 s) (map fst (serialize st))).
             { apply in_map_iff. exists (info_kv s (a_info a)). split; [reflexivity|now apply info_in_serialize]. }
             assert (Hnew : forall pres, pre_ok s pres -> pre_ok s ((H v, v) :: pres)).
-            { intros pres Hp h w [[= <- <-]|Hw]; [|now apply Hp]. split; [reflexivity|]. exists k. auto. }
+            { intros pres Hp h w [[= <- <-]|Hw]; [|now apply Hp]. split; [reflexivity|]. exists k.
+              apply bytes_eqb_eq in Ep. rewrite Es in Ep. auto 6. }
             apply upd_acc_ok; [assumption| |].
-            -- intros a0 Ha0. destruct (Hd s a0 Ha0) as (_ & Hlt & Hp). split; [assumption|split; [assumption|]].
-               cbn [add_pre p_pre]. now apply Hnew.
-            -- split; [assumption|split; [eapply wf_sid; eassumption|]].
-               cbn [add_pre p_pre StateKV.empty_pacc].
-               apply Hnew. intros h w [].
+            -- intros a0 Ha0. destruct (Hd s a0 Ha0) as (_ & Hlt & Hp & Hl). split; [assumption|split; [assumption|split]].
+               ++ cbn [add_pre p_pre]. now apply Hnew.
+               ++ exact Hl.
+            -- split; [assumption|split; [eapply wf_sid; eassumption|split]].
+               ++ cbn [add_pre p_pre StateKV.empty_pacc]. apply Hnew. intros h w [].
+               ++ intros e [].
           * split; [|assumption]. intros k' v' [[= <- <-]|Hin']; [auto|now apply Hu].
     Qed.
 
@@ -917,63 +925,148 @@ Section StateKVProofs.
     Qed.
 
     Lemma attach_pre_total s' pres : forall lks un,
-      s' < 2 ^ 32 -> pre_ok s' pres -> un_ok un ->
-      exists lks' un', attach_pre s' pres lks un = Some (lks', un') /\ un_ok un'.
+      s' < 2 ^ 32 -> pre_ok s' pres -> un_ok un -> lks_ok s' lks ->
+      exists lks' un', attach_pre s' pres lks un = Some (lks', un') /\ un_ok un' /\ lks_ok s' lks'.
     Proof.
-      induction pres as [|[h v] t IH]; intros lks un Hlt Hp Hu; cbn [StateKV.attach_pre].
+      induction pres as [|[h v] t IH]; intros lks un Hlt Hp Hu Hl; cbn [StateKV.attach_pre].
       - eauto.
       - assert (Hp' : pre_ok s' t) by (intros h' v' Hin; apply Hp; now right).
-        destruct (Hp h v (or_introl eq_refl)) as (-> & k' & Hin' & Hs' & Hf' & Hi').
+        destruct (Hp h v (or_introl eq_refl)) as (-> & k' & Hin' & Hs' & Hf' & Hi' & _).
         destruct (find_remove (key_svc_hash s' (lk_input (H v, len32 v))) un) as [[lv un1]|] eqn:Ef.
         + apply find_remove_in in Ef. destruct Ef as [Hin Hsub].
           destruct (Hu _ _ Hin) as (Hser & Hf & Hi).
           destruct (probe_decodes s' k' v _ lv Hin' Hf' Hi' Hs' Hser Hf Hi eq_refl Hlt) as [ts ->].
-          apply IH; auto. intros k0 v0 H0. apply Hu. now apply Hsub.
+          apply IH; auto.
+          * intros k0 v0 H0. apply Hu. now apply Hsub.
+          * intros e [<-|He]; [split; assumption|now apply Hl].
         + apply IH; auto.
     Qed.
 
     Lemma attach_all_total d : forall un,
-      delta_ok d -> un_ok un -> exists d' un', attach_all d un = Some (d', un').
+      delta_ok d -> un_ok un -> exists d' un', attach_all d un = Some (d', un') /\ un_ok un' /\ delta_ok d'.
     Proof.
       induction d as [|[s' a'] t IH]; intros un Hd Hu; cbn [StateKV.attach_all].
-      - eauto.
-      - destruct (Hd s' a' (or_introl eq_refl)) as (_ & Hlt & Hp).
-        destruct (attach_pre_total s' (p_pre a') (p_lk a') un Hlt Hp Hu) as (lks & un1 & -> & Hu1).
-        destruct (IH un1) as (d' & un2 & ->); [intros s1 a1 H1; apply Hd; now right|assumption|]. eauto.
+      - exists [], un. split; [reflexivity|split; [assumption|]]. intros s a [].
+      - destruct (Hd s' a' (or_introl eq_refl)) as (Hk & Hlt & Hp & Hl).
+        destruct (attach_pre_total s' (p_pre a') (p_lk a') un Hlt Hp Hu Hl) as (lks & un1 & -> & Hu1 & Hl1).
+        destruct (IH un1) as (d' & un2 & -> & Hu2 & Hd2); [intros s1 a1 H1; apply Hd; now right|assumption|].
+        exists ((s', set_lk lks a') :: d'), un2. split; [reflexivity|split; [assumption|]].
+        intros s1 a1 [[= <- <-]|H1]; [|now apply Hd2].
+        split; [assumption|split; [assumption|split; [exact Hp|exact Hl1]]].
     Qed.
+
+    (* the entries of a finalized account have unreserved keys *)
+    Lemma finalize_entry_unres s' pa k v :
+      acc_ok s' pa -> is_entry s' (finalize_acc pa) k v -> key_unres k.
+    Proof.
+      intros (_ & _ & Hp & Hl) (x & Hx & -> & _).
+      unfold StateKV.inputs, StateKV.finalize_acc in Hx. cbn [a_storage a_pre a_lk map app] in Hx.
+      rewrite in_app_iff, !in_map_iff in Hx. destruct Hx as [[[h w] [<- He]]|[e [<- He]]].
+      - destruct (Hp h w He) as (_ & k' & _ & _ & Hf & Hi & ->). cbn [fst]. split; assumption.
+      - now apply Hl.
+    Qed.
+
+    (* what the import recovers: the round trip, every component, exactly the services of the state with
+       their service information; the raw entries are service entries of the state *)
+    Definition recovered (kvs : list kv) (st' : state) (raw : list kv) : Prop :=
+      Permutation (serialize st' ++ raw) kvs /\
+      (forall i, In i idx16 -> st_comp st' i = st_comp st i) /\
+      (forall s a, In (s, a) (st_delta st) -> exists a', In (s, a') (st_delta st') /\ a_info a' = a_info a) /\
+      (forall s a', In (s, a') (st_delta st') -> exists a, In (s, a) (st_delta st)) /\
+      (forall k v, In (k, v) raw -> exists s a, In (s, a) (st_delta st) /\ is_entry s a k v).
 
     Theorem roundtrip_no_coincidence kvs :
       Permutation kvs (serialize st) ->
-      exists st' raw, parse kvs = Some (st', raw) /\ Permutation (serialize st' ++ raw) kvs.
+      exists st' raw, parse kvs = Some (st', raw) /\ recovered kvs st' raw.
     Proof.
       intros P.
       assert (Hall : forall kvp, In kvp kvs -> In kvp (serialize st)) by (intros kvp; apply Permutation_in; assumption).
       destruct (phase1_total kvs empty_pstate [] Hall) as (ps & un & E1 & Hu & Hd);
         [intros k v []|intros s a []|].
-      destruct (attach_all_total (ps_delta ps) un Hd Hu) as (d & raw & E2).
-      assert (Hp : parse kvs = Some (finalize {| ps_comp := ps_comp ps; ps_delta := d |}, raw)).
+      destruct (attach_all_total (ps_delta ps) un Hd Hu) as (d & raw & E2 & Hu2 & Hd2).
+      set (st' := finalize {| ps_comp := ps_comp ps; ps_delta := d |}).
+      assert (Hp : parse kvs = Some (st', raw)).
       { unfold StateKV.parse. now rewrite E1, E2. }
-      eexists _, _. split; [exact Hp|].
-      apply import_export_any; [| exact Hp | |].
-      - apply (Permutation_NoDup (Permutation_map fst (Permutation_sym P))). exact export_keys_nodup.
-      - intros i Hi. apply (Permutation_in _ (Permutation_map fst (Permutation_sym P))).
-        rewrite serialize_keys, in_app_iff. left. now apply in_map.
-      - intros s Hs. rewrite finalize_sids in Hs. cbn [ps_delta] in Hs.
-        destruct (attach_all_perm _ _ _ _ E2) as [_ F2]. rewrite <- (same_shape_keys _ _ F2) in Hs.
-        apply in_map_iff in Hs. destruct Hs as [[s0 a0] [<- Hin]]. cbn [fst].
-        destruct (Hd s0 a0 Hin) as (Hk & Hlt & _). split; [assumption|].
-        apply (Permutation_in _ (Permutation_map fst (Permutation_sym P))). exact Hk.
+      exists st', raw. split; [exact Hp|].
+      pose proof export_keys_nodup as Hnd.
+      assert (P' : Permutation (serialize st' ++ raw) kvs).
+      { apply import_export_any; [| exact Hp | |].
+        - apply (Permutation_NoDup (Permutation_map fst (Permutation_sym P))). exact Hnd.
+        - intros i Hi. apply (Permutation_in _ (Permutation_map fst (Permutation_sym P))).
+          rewrite serialize_keys, in_app_iff. left. now apply in_map.
+        - intros s Hs. unfold st' in Hs. rewrite finalize_sids in Hs. cbn [ps_delta] in Hs.
+          apply in_map_iff in Hs. destruct Hs as [[s0 a0] [<- Hin]]. cbn [fst].
+          destruct (Hd2 s0 a0 Hin) as (Hk & Hlt & _). split; [assumption|].
+          apply (Permutation_in _ (Permutation_map fst (Permutation_sym P))). exact Hk. }
+      assert (Hsub : forall kvp, In kvp (serialize st' ++ raw) -> In kvp (serialize st)).
+      { intros kvp Hin. apply (Permutation_in _ P). apply (Permutation_in _ P'). exact Hin. }
+      assert (Hdelta : forall s a', In (s, a') (st_delta st') -> exists pa, In (s, pa) d /\ a' = finalize_acc pa).
+      { unfold st'. cbn [StateKV.finalize st_delta ps_delta]. intros s a' Hin. apply in_map_iff in Hin.
+        destruct Hin as [[s0 pa] [E Hin]]. cbn [fst snd] in E. inversion E; subst. eauto. }
+      split; [exact P'|]. split; [|split; [|split]].
+      - intros i Hi.
+        assert (H1 : In (key_fixed i, enc_comp i (st_comp st' i)) (serialize st)).
+        { apply Hsub. rewrite in_app_iff. left. unfold StateKV.serialize. rewrite in_app_iff. left.
+          apply in_map_iff. exists i. auto. }
+        assert (H2 : In (key_fixed i, enc_comp i (st_comp st i)) (serialize st)).
+        { unfold StateKV.serialize. rewrite in_app_iff. left. apply in_map_iff. exists i. auto. }
+        pose proof (NoDup_map_fst_fun _ _ _ _ Hnd H1 H2) as E.
+        pose proof (comp_rt i (st_comp st' i)) as R1. rewrite E, comp_rt in R1. congruence.
+      - intros s a Hsa.
+        assert (H1 : In (info_kv s (a_info a)) (serialize st' ++ raw)).
+        { apply (Permutation_in _ (Permutation_sym P')). apply (Permutation_in _ (Permutation_sym P)).
+          now apply info_in_serialize. }
+        pose proof (wf_sid s a Hsa) as Hs.
+        rewrite in_app_iff in H1. destruct H1 as [H1|H1].
+        + apply in_serialize in H1. destruct H1 as [(i & Hi & E & _)|(s' & a' & Hsa' & [E|He])].
+          * pose proof (fixed_index_info_key s) as Hf. unfold StateKV.info_kv in E. cbn [fst] in E.
+            rewrite E, fixed_index_key_fixed in Hf by now apply idx16_in. discriminate.
+          * destruct (Hdelta s' a' Hsa') as (pa & Hpa & ->). destruct (Hd2 s' pa Hpa) as (_ & Hs' & _).
+            pose proof (f_equal fst E) as Ek. pose proof (f_equal snd E) as Ev. cbn [fst snd StateKV.info_kv] in Ek, Ev.
+            apply key_svc_idx_inj in Ek; try assumption. subst s'.
+            exists (finalize_acc pa). split; [assumption|].
+            pose proof (info_rt (a_info (finalize_acc pa))) as R1. rewrite <- Ev, info_rt in R1. congruence.
+          * destruct (Hdelta s' a' Hsa') as (pa & Hpa & ->).
+            destruct (finalize_entry_unres s' pa _ _ (Hd2 s' pa Hpa) He) as [_ Hi].
+            unfold StateKV.info_kv in Hi. cbn [fst] in Hi. rewrite info_sid_key in Hi by assumption. discriminate.
+        + destruct (Hu2 _ _ H1) as (_ & _ & Hi). rewrite info_sid_key in Hi by assumption. discriminate.
+      - intros s a' Hsa'. destruct (Hdelta s a' Hsa') as (pa & Hpa & ->).
+        destruct (Hd2 s pa Hpa) as (Hk & Hs & _). apply in_map_iff in Hk. destruct Hk as [[k v] [Ek Hin]].
+        cbn [fst] in Ek. subst k. apply in_serialize in Hin.
+        destruct Hin as [(i & Hi & E & _)|(s0 & a0 & Hsa0 & [E|He])].
+        + pose proof (fixed_index_info_key s) as Hf. rewrite E, fixed_index_key_fixed in Hf by now apply idx16_in.
+          discriminate.
+        + pose proof (f_equal fst E) as Ek. cbn [fst StateKV.info_kv] in Ek.
+          apply key_svc_idx_inj in Ek; [subst s0; eauto|assumption|eapply wf_sid; eassumption].
+        + destruct (entry_unreserved s0 a0 _ _ Hsa0 He) as [_ Hi]. rewrite info_sid_key in Hi by assumption. discriminate.
+      - intros k v Hin. destruct (Hu2 k v Hin) as (Hser & Hf & Hi). now apply classify_unreserved.
     Qed.
   End OneState.
 
   (* the property: export, import in any order, export again *)
+  Theorem export_import_recovers st kvs :
+    wf_state st -> Permutation kvs (serialize st) ->
+    (exists st' raw, parse kvs = Some (st', raw) /\ recovered st kvs st' raw) \/ coincidence st.
+  Proof.
+    intros Hwf P. destruct (coll_free st) eqn:E.
+    - left. apply (roundtrip_no_coincidence st Hwf (coll_free_true st E) kvs P).
+    - right. now apply coll_free_false.
+  Qed.
+
   Theorem export_import_roundtrip st kvs :
     wf_state st -> Permutation kvs (serialize st) ->
     (exists st' raw, parse kvs = Some (st', raw) /\ Permutation (serialize st' ++ raw) kvs)
     \/ coincidence st.
   Proof.
-    intros Hwf P. destruct (coll_free st) eqn:E.
-    - left. apply (roundtrip_no_coincidence st Hwf (coll_free_true st E) kvs P).
+    intros Hwf P. destruct (export_import_recovers st kvs Hwf P) as [(st' & raw & Hp & Hr & _)|Hc]; [left|now right].
+    eauto.
+  Qed.
+
+  Theorem export_keys_distinct st :
+    wf_state st -> NoDup (map fst (serialize st)) \/ coincidence st.
+  Proof.
+    intros Hwf. destruct (coll_free st) eqn:E.
+    - left. exact (export_keys_nodup st Hwf (coll_free_true st E)).
     - right. now apply coll_free_false.
   Qed.
 
